@@ -118,4 +118,5 @@ class RBFKernelGrad(RBFKernel):
             return k_diag[..., pi]
 
     def num_outputs_per_input(self, x1, x2):
-        return x1.size(-1) + 1
+        # x1 may not be restricted to the active dims yet (e.g. when asked by an enclosing sum / product kernel)
+        return (x1.size(-1) if self.active_dims is None else len(self.active_dims)) + 1
